@@ -4,7 +4,7 @@
  * touching it, the extension menu of DESIGN.md C16 "E":
  *   SHIFT    in {1,-1,7,-7,40,-40,1B,-1B,5B,-0B,0B+}      (README: add N [business] days)
  *   BYEASTER in {0,-2,49,366,-366}                         (README: N-th day after/before easter)
- *   SCALE    in {HIJRI, HIJRI.IA, HIJRI.DIYANET}           (README: calendar scale of the rule;
+ *   SCALE    in {HIJRI, HIJRI.IA, HIJRI.IVC, HIJRI.DIYANET}         (README: calendar scale of the rule;
  *                                                            DTSTART;VALUE=DATE;SCALE=HIJRI:14370229 as in test/sample_39.ics)
  *   TZID     in {Europe/Berlin, America/New_York, Australia/Lord_Howe}
  * plus Hijri DTSTART anchors, anchors shortly before DST changes, and the
@@ -25,7 +25,16 @@ struct rx_ext_s {
 	int zone;		/* index into rx_zone, -1 = floating */
 };
 
-static const char *const rx_scale_name[] = {"", "HIJRI", "HIJRI.IA", "HIJRI.DIYANET"};
+/* SCALE values; for the two table calendars the last Gregorian year a stream is followed into
+ * (Umm al-Qura table: 1356-1500 AH = 1937-03 .. 2077-11, Diyanet: 1318-1444 AH = 1900-05 .. 2023-01,
+ * read from the data files' own header comments and first/last entries) */
+struct rx_scale_s {
+	const char *name;
+	int first_year, last_year;	/* 0: unlimited (arithmetic calendars) */
+};
+static const struct rx_scale_s rx_scale[] = {
+	{"", 0, 0}, {"HIJRI", 1938, 2075}, {"HIJRI.IA", 0, 0}, {"HIJRI.DIYANET", 1901, 2021}, {"HIJRI.IVC", 0, 0},
+};
 
 /* last 32-bit transition of the zone file (zdump / TZif v1 block); lookups exactly there
  * are C07's finding (tzraw.c __find_trno), cases that can reach it are left out here */
@@ -64,17 +73,18 @@ static const struct rx_ext_s rx_ext[] = {
 	/* SCALE: the rule and (for the Hijri anchors) DTSTART carry the same scale */
 	{RX_SCALE, ";SCALE=HIJRI", ";SCALE=HIJRI", "SCALE:HIJRI", 1, -1},
 	{RX_SCALE, ";SCALE=HIJRI.IA", ";SCALE=HIJRI.IA", "SCALE:HIJRI.IA", 2, -1},
+	{RX_SCALE, ";SCALE=HIJRI.IVC", ";SCALE=HIJRI.IVC", "SCALE:HIJRI.IVC", 4, -1},
 	{RX_SCALE, ";SCALE=HIJRI.DIYANET", ";SCALE=HIJRI.DIYANET", "SCALE:HIJRI.DIYANET", 3, -1},
 	/* TZID */
-	{RX_TZID, "", ";TZID=Europe/Berlin", "TZID:Berlin", 0, 0},
-	{RX_TZID, "", ";TZID=America/New_York", "TZID:New_York", 0, 1},
-	{RX_TZID, "", ";TZID=Australia/Lord_Howe", "TZID:Lord_Howe", 0, 2},
+	{RX_TZID, "", ";TZID=Europe/Berlin", "TZID:dst1h", 0, 0},
+	{RX_TZID, "", ";TZID=America/New_York", "TZID:dst1h", 0, 1},
+	{RX_TZID, "", ";TZID=Australia/Lord_Howe", "TZID:dst30m", 0, 2},
 	/* a few fixed pairs (thorough tier) */
 	{RX_PAIR, ";BYEASTER=-2;SHIFT=1B", "", "EASTER:neg+SHIFT:bday+", 0, -1},
 	{RX_PAIR, ";BYEASTER=49;SHIFT=-40", "", "EASTER:pos+SHIFT:day-far", 0, -1},
-	{RX_PAIR, ";SHIFT=-1B", ";TZID=Europe/Berlin", "SHIFT:bday-+TZID:Berlin", 0, 0},
+	{RX_PAIR, ";SHIFT=-1B", ";TZID=Europe/Berlin", "SHIFT:bday-+TZID:dst1h", 0, 0},
 	{RX_PAIR, ";SHIFT=40;SCALE=HIJRI", ";SCALE=HIJRI", "SHIFT:day+far+SCALE:HIJRI", 1, -1},
-	{RX_PAIR, ";BYEASTER=0", ";TZID=America/New_York", "EASTER:zero+TZID:New_York", 0, 1},
+	{RX_PAIR, ";BYEASTER=0", ";TZID=America/New_York", "EASTER:zero+TZID:dst1h", 0, 1},
 };
 #define RX_NEXT	((int)(sizeof(rx_ext) / sizeof(*rx_ext)))
 
@@ -100,6 +110,35 @@ rx_applies(int freq, const struct rx_ext_s *x, int pairs)
 		return freq <= RF_MONTHLY;
 	}
 	return 0;
+}
+
+/* Signature shape of a rule under an extension.  Plain rules keep rrgram.h's full shape
+ * (FREQ/interval class/parts with value kinds).  Under an extension only the parts that can
+ * interact with it are named (time parts for TZID, date parts for SHIFT/BYEASTER/SCALE) and
+ * value kinds are dropped, so that one defect of an extension stays at a handful of signatures. */
+static const char*
+rx_shape(char *buf, size_t bsz, const struct rg_rule_s *g, const struct rx_ext_s *x)
+{
+	size_t o;
+	int k = 0;
+
+	if (x->kind == RX_NONE) {
+		snprintf(buf, bsz, "%s", g->shape);
+		return buf;
+	}
+	o = (size_t)snprintf(buf, bsz, "%s/", rg_freqname[g->freq]);
+	for (int i = 0; i < g->nparts; i++) {
+		const int p = g->part[i];
+		const int timep = p == P_HOUR || p == P_MIN || p == P_SEC;
+		if (x->zone >= 0 ? !timep : timep) {
+			continue;
+		}
+		if (o < bsz) o += (size_t)snprintf(buf + o, bsz - o, "%s%s", k++ ? "+" : "", rg_key[p] + 2);
+	}
+	if (!k && o < bsz) {
+		snprintf(buf + o, bsz - o, "-");
+	}
+	return buf;
 }
 
 /* DTSTART anchors written in Hijri digits (y, m, d of the Hijri calendar), DATE valued like
